@@ -21,11 +21,11 @@ import (
 
 type fakeAuth struct{}
 
-func (fakeAuth) PublicKey() []byte                                   { return []byte{1} }
-func (fakeAuth) Verify(a, b []byte) (bool, error)                    { return false, errors.New("fake") }
-func (fakeAuth) DecryptSharedSecret(b []byte) ([]byte, error)        { return nil, errors.New("fake") }
-func (fakeAuth) GenerateServerID(b []byte) (string, error)           { return "", errors.New("fake") }
-func (fakeAuth) SetHasJoinedURLFn(fn auth.HasJoinedURLFn)            {}
+func (fakeAuth) PublicKey() []byte                            { return []byte{1} }
+func (fakeAuth) Verify(a, b []byte) (bool, error)             { return false, errors.New("fake") }
+func (fakeAuth) DecryptSharedSecret(b []byte) ([]byte, error) { return nil, errors.New("fake") }
+func (fakeAuth) GenerateServerID(b []byte) (string, error)    { return "", errors.New("fake") }
+func (fakeAuth) SetHasJoinedURLFn(fn auth.HasJoinedURLFn)     {}
 func (fakeAuth) AuthenticateJoin(context.Context, string, string, string) (auth.Response, error) {
 	return nil, errors.New("fake")
 }
@@ -120,9 +120,16 @@ const (
 	cBadBind  = "invalid-bind"   // non-route field differs and is invalid
 	cLiteOff  = "lite-disabled"  // valid classic config: lite switched off
 	cNil      = "nil"
+	// a change in each OTHER part of the configuration (valid; one with routes changed as well)
+	cAPI      = "api-enabled"  // top-level api section
+	cHealth   = "health-bind"  // top-level healthService section
+	cConnect  = "connect-name" // top-level connect section
+	cNoReload = "noAutoReload" // top-level scalar
+	cQuota    = "quota-burst"  // nested java setting
+	cAPIR1    = "api-enabled+routes-1"
 )
 
-var candidateKinds = []string{cSame, cR1, cR2, cInvalidR, cInvalidS, cBind, cBindR1, cBadBind, cLiteOff, cNil}
+var candidateKinds = []string{cSame, cR1, cR2, cInvalidR, cInvalidS, cBind, cBindR1, cBadBind, cLiteOff, cNil, cAPI, cHealth, cConnect, cNoReload, cQuota, cAPIR1}
 
 type candInfo struct {
 	valid     bool
@@ -133,6 +140,7 @@ var candFacts = map[string]candInfo{
 	cSame: {true, true}, cR1: {true, true}, cR2: {true, true},
 	cInvalidR: {false, true}, cInvalidS: {false, true},
 	cBind: {true, false}, cBindR1: {true, false}, cBadBind: {false, false}, cLiteOff: {true, false},
+	cAPI: {true, false}, cHealth: {true, false}, cConnect: {true, false}, cNoReload: {true, false}, cQuota: {true, false}, cAPIR1: {true, false},
 }
 
 func buildCandidate(kind string) *config.Config {
@@ -158,6 +166,19 @@ func buildCandidate(kind string) *config.Config {
 		c.Config.Lite.Routes = r1
 	case cBadBind:
 		c.Config.Bind = "no-port"
+	case cAPI:
+		c.API.Enabled = !c.API.Enabled
+	case cHealth:
+		c.HealthService.Bind = "127.0.0.1:9191"
+	case cConnect:
+		c.Connect.Name = "other-endpoint"
+	case cNoReload:
+		c.NoAutoReload = !c.NoAutoReload
+	case cQuota:
+		c.Config.Quota.Logins.Burst++
+	case cAPIR1:
+		c.API.Enabled = !c.API.Enabled
+		c.Config.Lite.Routes = r1
 	case cLiteOff:
 		c.Config.Lite.Enabled = false
 		c.Config.Servers = map[string]string{"s1": "localhost:25566"}
@@ -271,4 +292,3 @@ func hashStr(s string) uint32 {
 	}
 	return h
 }
-
